@@ -40,13 +40,13 @@ type CrashCase struct {
 
 // CrashRun is one kill image that was restarted and read.
 type CrashRun struct {
-	Case     CrashCase `json:"case"`
-	Writer   string    `json:"writer"`   // upload | fetch
-	Where    string    `json:"where"`    // the concrete place the image was taken
-	Restart  string    `json:"restart"`  // storage mode after the restart
-	Files    []string  `json:"files"`    // files of the key in the image
-	Results  []string  `json:"results"`  // per read path
-	Size     int       `json:"size"`
+	Case    CrashCase `json:"case"`
+	Writer  string    `json:"writer"`  // upload | fetch
+	Where   string    `json:"where"`   // the concrete place the image was taken
+	Restart string    `json:"restart"` // storage mode after the restart
+	Files   []string  `json:"files"`   // files of the key in the image
+	Results []string  `json:"results"` // per read path
+	Size    int       `json:"size"`
 }
 
 // fileTimes are the access and modification times of the files of a kill image, as they were in
